@@ -104,9 +104,9 @@ func (c *ProgCase) Judge(rs []Res, env *Env) Outcome {
 						ob.Stmt, p.Stmts[ob.Stmt].Line(), what, ob.Value, uint64(want)&mask, hexOut, src)})
 				return o
 			}
-			if prop == "C03" {
+			if prop == "C03" || prop == "C17" {
 				o.Status = Violated
-				o.Viols = append(o.Viols, Violation{Sig: fmt.Sprintf("C03|%s|m%d|%s|drift=%+d", kind, w.ModeAt[ob.Stmt], culprit, int64(uint64(want)&mask)-int64(uint64(ob.Value)&mask)),
+				o.Viols = append(o.Viols, Violation{Sig: fmt.Sprintf(prop+"|%s|m%d|%s|drift=%+d", kind, w.ModeAt[ob.Stmt], culprit, int64(uint64(want)&mask)-int64(uint64(ob.Value)&mask)),
 					Detail: fmt.Sprintf("statement %d `%s` embeds %s = %#x, but it really is at %#x (origin %#x + offset %d); first mis-sized statement: %s; output %s; program:\n%s",
 						ob.Stmt, p.Stmts[ob.Stmt].Line(), what, ob.Value, uint64(want)&mask, w.Origin, want-w.Origin, culprit, hexOut, src)})
 				return o
@@ -143,7 +143,7 @@ func (c *ProgCase) Judge(rs []Res, env *Env) Outcome {
 	}
 	// 3. the last label versus the real end of the output (needs no complete walk):
 	//    "the total output length equals the sum of the statement sizes used for address assignment"
-	if prop == "C03" && len(p.Stmts) > 0 && p.Stmts[len(p.Stmts)-1].K == "label" {
+	if (prop == "C03" || prop == "C17") && len(p.Stmts) > 0 && p.Stmts[len(p.Stmts)-1].K == "label" {
 		fin := p.Stmts[len(p.Stmts)-1].Label
 		for _, ob := range w.Obs {
 			if ob.Stmt >= limit || ob.Label != fin || ob.Dollar {
@@ -160,7 +160,7 @@ func (c *ProgCase) Judge(rs []Res, env *Env) Outcome {
 					}
 				}
 				o.Status = Violated
-				o.Viols = append(o.Viols, Violation{Sig: fmt.Sprintf("C03|total-length|m%d|%s|drift=%+d", w.ModeAt[ob.Stmt], culprit, int64(uint64(want)&mask)-int64(uint64(ob.Value)&mask)),
+				o.Viols = append(o.Viols, Violation{Sig: fmt.Sprintf(prop+"|total-length|m%d|%s|drift=%+d", w.ModeAt[ob.Stmt], culprit, int64(uint64(want)&mask)-int64(uint64(ob.Value)&mask)),
 					Detail: fmt.Sprintf("the label placed after the last statement has the value %#x (statement %d `%s`), but origin %#x + the %d bytes emitted = %#x: the statement sizes used for address assignment do not add up to the output; walk: %s; output %s; program:\n%s",
 						ob.Value, ob.Stmt, p.Stmts[ob.Stmt].Line(), w.Origin, len(r.Out), uint64(want)&mask, w.FailWhy, hexOut, src)})
 				return o
